@@ -93,11 +93,14 @@ CheckRefund(e, post) ==
                     left == Monus(bal, e.post.dispute.bal)   \* what left dispute escrow with this withdrawal: the payout and the burn
                 IN IF (out ++ pburn) \preceq left /\ (left -- (out ++ pburn)) = total // E6 /\ e.post.dispute.dust = total %% E6 THEN {}
                    ELSE {"SubUnitDustIsAccumulatedAndBurnedInWholeUnits"})
-     \cup (IF rec = {} \/ ~Has(disp, e.id) \/ d.status = FAILED THEN {}
+     \* (a failed - never fully funded - dispute refunds the payment less the 5% burn, which leaves escrow with the refund)
+     \cup (IF rec = {} \/ ~Has(disp, e.id) THEN {}
            ELSE LET p == CHOOSE x \in rec : TRUE
-                    refund == (p.amt ** Monus(d.slash, d.burn)) // d.feetotal
-                    bond == IF ResultOf(d) \in {1, 4} THEN (p.amt ** d.slash) // d.feetotal ELSE Zero
-                    paidOut == Monus(bal, e.post.dispute.bal)
+                    failed == d.status = FAILED
+                    fburn2 == d.feetotal // N(20)
+                    refund == IF failed THEN (p.amt ** (d.feetotal -- fburn2)) // d.feetotal ELSE (p.amt ** Monus(d.slash, d.burn)) // d.feetotal
+                    bond == IF ~failed /\ ResultOf(d) \in {1, 4} THEN (p.amt ** d.slash) // d.feetotal ELSE Zero
+                    paidOut == Monus(Monus(bal, e.post.dispute.bal), IF failed THEN (p.amt ** fburn2) // d.feetotal ELSE Zero)
                     liquid == Monus(e.post.hold[e.payer].bal, hold[e.payer].bal)
                     staked == Monus(e.post.hold[e.payer].stake, hold[e.payer].stake)
                     dustBurn == Monus(dust ++ N(2) ** E6, e.post.dispute.dust) // E6   \* whole loya burned from dust: at most 2
